@@ -51,40 +51,48 @@ def run_config(run, prop, name, consts, wd, seed, vertex_cls="mixed", caching=Fa
     t0 = time.time()
     gen = ST.generate(name, consts, wd)
     run.add_model(name, gen, {k: (sorted(v) if isinstance(v, set) else v) for k, v in consts.items()})
-    calls_at, states = explore.parse_transitions(gen["json"])
-    del gen
+    index = gen.pop("index")
     t1 = time.time()
     spec = {"engine": "render", "kind": prop, "seed": seed}
-    _, confirmed, st, probed = explore.explore(consts, ST.base_state(consts), calls_at, states, probe=spec,
-                                               vertex_cls=vertex_cls, keep_records=False, caching=caching)
+    agg = {"bad": 0, "n": 0, "judge_s": 0.0, "chunks": 0, "sampled": False}
+
+    def probe_sink(probed):
+        recs = []
+        for pr in probed:
+            for r in pr["probes"]:
+                r["id"] = len(recs) + 1
+                r["path"] = pr["path"]
+                recs.append(r)
+        tj = time.time()
+        agg["chunks"] += 1
+        verdicts = judge(consts, recs, wd, f"{name}-{agg['chunks']}")
+        agg["judge_s"] += time.time() - tj
+        for v in verdicts:
+            r = recs[v["id"] - 1]
+            cls = RX.render_class(r)
+            agg["bad"] += 1
+            run.violation(f"{cls}|{'+'.join(sorted(v['fail']))}",
+                          f"{r['kind']} rendering of members {r['M']} violates {'+'.join(sorted(v['fail']))}",
+                          {"kind": "render", "config": name, "consts": {k: (sorted(x) if isinstance(x, set) else x) for k, x in consts.items()},
+                           "vertex_cls": vertex_cls, "path": r["path"],
+                           "probe": {k: r[k] for k in r if k in ("kind", "M", "sorted", "default_repr", "rank", "variant", "title_tag", "customizable", "extra_attr")},
+                           "state": r["S"], "observed": r["res"], "text": r.get("text"), "fail": v["fail"], "expected": v.get("exp")})
+        for r in recs:
+            run.count_class(RX.render_class(r))
+        agg["n"] += len(recs)
+        run.traces += len(recs)
+        run.evaluations += len(recs)
+        if not agg["sampled"] and recs:
+            agg["sampled"] = True
+            r = recs[len(recs) * 2 // 3]
+            run.sample({"config": name, "state": {k: r["S"][k] for k in ("kind", "ends", "vl")}, "members": r["M"],
+                        "text": r.get("text"), "parsed": r["res"]})
+
+    _, confirmed, st, _ = explore.explore(consts, ST.base_state(consts), index, index, probe=spec, vertex_cls=vertex_cls,
+                                          keep_records=False, caching=caching, probe_sink=probe_sink)
     t2 = time.time()
-    recs = []
-    for pr in probed:
-        for r in pr["probes"]:
-            r["id"] = len(recs) + 1
-            r["path"] = pr["path"]
-            recs.append(r)
-    verdicts = judge(consts, recs, wd, name)
-    t3 = time.time()
-    for v in verdicts:
-        r = recs[v["id"] - 1]
-        cls = RX.render_class(r)
-        run.violation(f"{cls}|{'+'.join(sorted(v['fail']))}",
-                      f"{r['kind']} rendering of members {r['M']} violates {'+'.join(sorted(v['fail']))}",
-                      {"kind": "render", "config": name, "consts": {k: (sorted(x) if isinstance(x, set) else x) for k, x in consts.items()},
-                       "vertex_cls": vertex_cls, "path": r["path"],
-                       "probe": {k: r[k] for k in r if k in ("kind", "M", "sorted", "default_repr", "rank", "variant", "title_tag", "customizable", "extra_attr")},
-                       "state": r["S"], "observed": r["res"], "text": r.get("text"), "fail": v["fail"], "expected": v.get("exp")})
-    for r in recs:
-        run.count_class(RX.render_class(r))
-    run.traces += len(recs)
-    run.evaluations += len(recs)
-    if recs:
-        r = recs[len(recs) * 2 // 3]
-        run.sample({"config": name, "state": {k: r["S"][k] for k in ("kind", "ends", "vl")}, "members": r["M"],
-                    "text": r.get("text"), "parsed": r["res"]})
-    st.update({"renderings": len(recs), "failing": len(verdicts), "t_generate_s": round(t1 - t0, 1),
-               "t_execute_s": round(t2 - t1, 1), "t_judge_s": round(t3 - t2, 1)})
+    st.update({"renderings": agg["n"], "failing": agg["bad"], "t_generate_s": round(t1 - t0, 1),
+               "t_execute_and_judge_s": round(t2 - t1, 1), "t_judge_s": round(agg["judge_s"], 1)})
     run.extra.setdefault("executions", []).append({"config": name, **st})
 
 
@@ -125,8 +133,12 @@ def _check(prop, tier, seed, wd, rp, rule, cfgs_quick, cfgs_thorough, mandatory,
         return replay(prop, rp, wd)
     run = Run(prop, tier, seed)
     run.rule = rule
-    for name, consts in (cfgs_quick if tier == "quick" else cfgs_thorough):
+    cfgs = cfgs_quick if tier == "quick" else cfgs_thorough
+    for name, consts in cfgs:
         run_config(run, prop, name, consts, wd, seed)
+    # the same graphs with every vertex carrying the same explicit uid, and with neighbour caching on
+    name, consts = cfgs[-1]
+    run_config(run, prop, name + "+sameuid+cache", consts, wd, seed, vertex_cls="mixed-sameuid", caching=True)
     run.exhaustive = True
     run.assumptions = ASSUME
     return run.finish(nontrivial_filter=nontrivial, mandatory=mandatory)
